@@ -19,6 +19,7 @@ RULE = ("wrapper chains of length 1..7 over synthetic manager classes (three cla
 ASSUMPTIONS = ["the hooks' own log is the observation channel; the model is the loop of the property statement"]
 MIN_NONTRIVIAL = {"quick": 5000, "thorough": 100000}
 REQUIRED_COUNTERS = {"cases_cycle": {"quick": 300, "thorough": 5000},
+                     "falsy_managers_in_chains": {"quick": 2000, "thorough": 40000},
                      "cases_elaborate_substitutes_obj": {"quick": 1000, "thorough": 20000},
                      "cases_prune": {"quick": 500, "thorough": 5000},
                      "cases_gcm_exiting_path": {"quick": 300, "thorough": 5000},
@@ -58,6 +59,13 @@ def worker(spec):
     class WA(object):
         def __init__(self, i):
             self.i = i
+            # a manager may well be falsy (container-like resources: empty pool, empty shelf)
+            self.falsy = rng.random() < 0.25
+            if self.falsy:
+                res.count("falsy_managers_in_chains")
+
+        def __len__(self):
+            return 0 if self.falsy else 1
 
         def __enter__(self):
             return self
@@ -74,6 +82,12 @@ def worker(spec):
     class WC(object):
         def __init__(self, i):
             self.i = i
+            self.falsy = rng.random() < 0.25
+            if self.falsy:
+                res.count("falsy_managers_in_chains")
+
+        def __bool__(self):
+            return not self.falsy
 
         async def __aenter__(self):
             return self
